@@ -70,6 +70,11 @@ Theorem C16_position_inside_line : forall pre suf,
 Proof. exact position_inside_line. Qed.
 Print Assumptions C16_position_inside_line.
 
+Theorem C16_char_span_exact : forall pre mid suf,
+  char_span (pre ++ mid ++ suf) (len8s pre) (len8s (pre ++ mid)) = (N.of_nat (length pre), N.of_nat (length pre + length mid)).
+Proof. exact char_span_exact. Qed.
+Print Assumptions C16_char_span_exact.
+
 Theorem C16_char_index_boundary : forall pre suf,
   utf8_to_char_index (pre ++ suf) (len8s pre) = N.of_nat (length pre).
 Proof. exact char_index_boundary. Qed.
